@@ -15,7 +15,8 @@ RULE = ("bounded-exhaustive: every sequence of length <= L (L=3 quick, 4 thoroug
         "(pids p/pq/q - prefix related -, contents A/B, store with and without pid, tag to existing / other "
         "/ never-stored cid, delete, delete_if_invalid right/wrong, store with wrong checksum/size) plus "
         "seeded random sequences of length 40 over the full public API (incl. metadata, reads, all data "
-        "kinds, 12 algorithms); after EVERY call the store directory is abstracted and compared with the "
+        "kinds, 12 algorithms; a third of them in other store configurations: depth 1/2/5, width 1/3/4, all five "
+        "store algorithms); after EVERY call the store directory is abstracted and compared with the "
         "reference model (pid refs, cid lists as multisets of lines, objects, metadata, no tmp / *_delete "
         "residue, structural invariant). distinct_nontrivial = distinct (model state, operation shape) "
         "transitions in which the state is non-empty.")
@@ -101,7 +102,14 @@ def run_shard(mode, n, firsts, sub_seed):
                             res.sample({"mode": "exhaustive", "ops": [op_shape(o) + ":" + str(o.get("pid")) for o in ops]})
         else:
             rng = random.Random(sub_seed)
+            from ..common import STORE_ALGOS
             for k in range(n):
+                if k % 3 == 1:
+                    # configuration variety for the random sequences
+                    rmtree(scratch)
+                    os.makedirs(scratch, exist_ok=True)
+                    pool = WorldPool(scratch, contents, DOCS, depth=rng.choice([1, 2, 5]), width=rng.choice([1, 3, 4]),
+                                     algo=rng.choice(STORE_ALGOS))
                 ops = []
                 pids = PIDS + ["r"]
                 fmts = [None, "f1", "http://ns/x"]
